@@ -1,11 +1,17 @@
 ------------------------------ MODULE ChainTopo ------------------------------
 (* Enumeration of the process topologies of C09 (one state per topology).    *)
-(* Variables 1..NExt are external names; discipline k owns the name NExt+k.  *)
+(* Variables 1..NExt are external names; discipline k owns a fresh name (the *)
+(* smallest unused one: NExt+k when every discipline before it owns one).    *)
 (* Discipline k reads a non-empty set of names that exist before it          *)
-(* (external names or names owned by earlier disciplines) and writes its own *)
-(* name plus at most one EXTRA name: a name owned by an earlier discipline   *)
-(* (an overwritten variable) or an external name (the chain then has an      *)
-(* input and an output of that name), never one it reads itself.             *)
+(* (external names or names written by earlier disciplines) and writes       *)
+(*   - its own name,                                                         *)
+(*   - at most one EXTRA name it does not read: a name owned by an earlier   *)
+(*     discipline (an overwritten variable) or an external name (the chain   *)
+(*     then has an input and an output of that name),                        *)
+(*   - a set W of at most MaxSelf names that it READS (self-overwriting      *)
+(*     member, a state-update step such as (pos, vel) -> (pos, vel)): it     *)
+(*     reads the old values and writes the new ones under the same names;    *)
+(*     when W is not empty it may also be a PURE update (no own name).       *)
 (* Every such listing is an acyclic data flow: discipline k only reads what  *)
 (* exists before it.  TLC prints each topology with its class labels.        *)
 EXTENDS ChainTopoDefs, TLC
@@ -14,37 +20,46 @@ CONSTANTS MaxN,        \* disciplines
           MaxIns,      \* inputs per discipline
           MaxExtra,    \* extra (overwriting) outputs in the whole topology
           ExtraExt,    \* TRUE: an external name may be overwritten too
+          MaxSelf,     \* names a discipline may read AND write (0: no self-overwriting member)
           Independent, \* TRUE: members for a parallel / additive chain (see NextInd)
           NPool        \* Independent: number of output names
 VARIABLE topo
 
-Own(k) == NExt + k
-Before(k) == 1..(NExt + k - 1)
-NExtra(s) == Cardinality({k \in 1..Len(s) : Cardinality(s[k].outs) >= 2})
+Avail(s) == (1..NExt) \cup UNION {s[k].outs : k \in 1..Len(s)}          \* the names that exist after the listing s
+Max(S) == CHOOSE m \in S : \A x \in S : x <= m
+Own(s) == Max(Avail(s)) + 1
+NExtra(s) == Cardinality({k \in 1..Len(s) : s[k].extra # {}})
 
 \* The listing is built one discipline at a time: every reachable state with >= 1 discipline is a
 \* topology (the set of topologies is prefix-closed), so TLC's breadth-first search enumerates them.
-Add(I, E) == /\ Len(topo) < MaxN
-             /\ topo' = Append(topo, [ins |-> I, outs |-> {Own(Len(topo) + 1)} \cup E])
+Add(I, E, W, own) == /\ Len(topo) < MaxN
+                     /\ topo' = Append(topo, [ins |-> I, outs |-> (IF own THEN {Own(topo)} ELSE {}) \cup E \cup W,
+                                              extra |-> E])
 Init == topo = <<>>
-Next == \E I \in {J \in SUBSET Before(Len(topo) + 1) : J # {} /\ Cardinality(J) <= MaxIns} :
+Next == \E I \in {J \in SUBSET Avail(topo) : J # {} /\ Cardinality(J) <= MaxIns} :
           \E E \in {{}} \cup (IF NExtra(topo) < MaxExtra
-                              THEN {{v} : v \in {w \in Before(Len(topo) + 1) \ I : ExtraExt \/ w > NExt}}
-                              ELSE {}) : Add(I, E)
+                              THEN {{v} : v \in {w \in Avail(topo) \ I : ExtraExt \/ w > NExt}}
+                              ELSE {}) :
+            \E W \in {X \in SUBSET I : Cardinality(X) <= MaxSelf} :
+              \E own \in (IF W # {} /\ E = {} THEN {TRUE, FALSE} ELSE {TRUE}) : Add(I, E, W, own)
 \* Members of a parallel / additive chain: every discipline reads external names only and writes a
 \* non-empty subset of a pool of NPool output names (several members may write the same name: the
 \* later one wins in a parallel chain, they are summed in an additive chain).
+\* A member may also write up to MaxSelf of the names it reads (self-overwriting member of a parallel chain:
+\* every member reads the data at the entry of the chain, the chain has an input and an output of that name).
 NextInd == \E I \in {J \in SUBSET (1..NExt) : J # {}} :
              \E O \in {Q \in SUBSET ((NExt + 1)..(NExt + NPool)) : Q # {}} :
+               \E W \in {X \in SUBSET I : Cardinality(X) <= MaxSelf} :
                 /\ Len(topo) < MaxN
-                /\ topo' = Append(topo, [ins |-> I, outs |-> O])
+                /\ topo' = Append(topo, [ins |-> I, outs |-> O \cup W, extra |-> {}])
 Spec == Init /\ [][IF Independent THEN NextInd ELSE Next]_topo
 
 AsTopo(s) == [n |-> Len(s), ins |-> [d \in 1..Len(s) |-> s[d].ins], outs |-> [d \in 1..Len(s) |-> s[d].outs]]
 T == AsTopo(topo)
 
 \* every enumerated topology is a legal instance of ChainRule
-Legal == /\ \A d \in TD(T) : (T.ins[d] # {} /\ T.outs[d] # {} /\ T.ins[d] \cap T.outs[d] = {})
+Legal == /\ \A d \in TD(T) : (T.ins[d] # {} /\ T.outs[d] # {} /\ Cardinality(T.ins[d] \cap T.outs[d]) <= MaxSelf)
+         /\ TChainOut(T) \subseteq 1..(NExt + (IF Independent THEN NPool ELSE T.n))     \* fresh names are consecutive
          /\ \A d \in TD(T) : T.ins[d] \subseteq TChainIn(T) \cup UNION {T.outs[j] : j \in 1..(d - 1)}
 Emit == Len(topo) = 0 \/ PrintT(<<"TOPO", T.n, T.ins, T.outs, Classes(T)>>)
 =============================================================================
